@@ -760,8 +760,23 @@ def flags(chk, rid):
            fi=u.fi, node=wst)
   reps = [c for n, c in u.all_calls() if call_tail(c) == 'replace']
   ok = bool(reps)
+  def loop_cell(name):
+    """expression a loop variable stands for when the loop runs over a list
+    built by one comprehension / literal of tuples (`for p, v in pairs`)"""
+    for x in walk_local(u.fi.node):
+      if isinstance(x, ast.For) and isinstance(x.target, ast.Tuple):
+        pos = [i for i, t_ in enumerate(x.target.elts) if isinstance(t_, ast.Name) and t_.id == name]
+        if not pos:
+          continue
+        src = u.expand(x.iter, 2)
+        if isinstance(src, (ast.ListComp, ast.GeneratorExp)) and isinstance(src.elt, ast.Tuple) \
+            and len(src.elt.elts) == len(x.target.elts):
+          return src.elt.elts[pos[0]]
+    return None
   for c in reps:
     pat = c.args[0] if c.args else None
+    if isinstance(pat, ast.Name):
+      pat = loop_cell(pat.id) or u.expand(pat, 2)
     good = isinstance(pat, ast.BinOp) and isinstance(pat.op, ast.Mod) and \
         const_str(pat.left) == '${%s}'
     ok = ok and good
